@@ -5,11 +5,18 @@ import BufModel.Path
     private/bufpkg/bufimage/bufimagemodify/internal/{marksweeper,field_options_trie,location_path_dfa}.go
     private/bufpkg/bufconfig/generate_managed_{config,option}.go   (the rule records)
 
-  An image file is: its path, package, module full name, the twelve governed file options
-  (eight strings, three bools, optimize_for), the list of its fields (every
-  FieldDescriptorProto reachable by protocompile's walk: message fields, nested, extensions)
-  with the governed field option `jstype`, the SourceCodeInfo location list (path + opaque
-  payload) and an opaque `rest` standing for everything else in the descriptor.
+  An image file is: its path, package, module full name, its FileOptions message as a list
+  `field number ↦ value` holding EVERY option present (the twelve governed ones as typed
+  values, every other option — `deprecated`, `swift_prefix`, `features`, custom extensions,
+  unknown fields — as an opaque value the harness fills with a hash of the option's wire
+  bytes), the list of its fields (every FieldDescriptorProto reachable by protocompile's walk:
+  message fields, nested, extensions) each with its full FieldOptions list (`jstype` = field
+  number 6 typed, the others opaque) and an opaque `rest` (hash of the field descriptor without
+  its options), the SourceCodeInfo location list (path + opaque payload) and an opaque
+  `payload` (hash of the serialized descriptor without file options, field options and source
+  info: messages, enums, services, dependencies, message/enum/service options …).
+  Setting an option is a list update by field number (`setOpt`), so "no other option changes"
+  is a theorem about the model, not a property of a record update.
 
   Strings are `List Char`; the casing helpers are modelled on ASCII (other runes are
   "neither upper nor lower").  Package names are assumed to have no empty dot-separated part
@@ -84,13 +91,53 @@ structure Config where
 
 /-! ## the image -/
 
+/-- value of one option (one field number of a FileOptions / FieldOptions message). -/
+inductive OVal where
+  | str (s : Str)
+  | bool (b : Bool)
+  | num (n : Nat)      -- enum value (optimize_for, jstype)
+  | raw (h : Nat)      -- any other option: opaque (hash of its wire bytes)
+  deriving DecidableEq, Repr
+
+/-- an options message: the options present, by field number. -/
+abbrev Opts := List (Nat × OVal)
+
+/-- the value of field number `n` (`none` = not set). -/
+def getOpt (n : Nat) : Opts → Option OVal
+  | [] => none
+  | (k, v) :: rest => if k = n then some v else getOpt n rest
+
+/-- set field number `n` (replace it where it stands, else add it). -/
+def setOpt (n : Nat) (v : OVal) : Opts → Opts
+  | [] => [(n, v)]
+  | (k, w) :: rest => if k = n then (n, v) :: rest else (k, w) :: setOpt n v rest
+
+/-- FileOptions field numbers (second element of the SourceCodeInfo path `[8, n]`). -/
+def StrOpt.tag : StrOpt → Nat
+  | .javaPackage => 1 | .javaOuterClassname => 8 | .goPackage => 11 | .objcClassPrefix => 36
+  | .csharpNamespace => 37 | .phpNamespace => 41 | .phpMetadataNamespace => 44 | .rubyPackage => 45
+
+def BoolOpt.tag : BoolOpt → Nat
+  | .ccEnableArenas => 31 | .javaMultipleFiles => 10 | .javaStringCheckUtf8 => 27
+
+def optimizeForTag : Nat := 9
+
+/-- FieldOptions.jstype field number. -/
+def jstypeTag : Nat := 6
+
 structure Field where
   fullName : Str
   path : List Nat          -- SourceCodeInfo path of the FieldDescriptorProto
   typ : Option Nat         -- FieldDescriptorProto.type
-  jstype : Option Nat      -- FieldOptions.jstype (none = unset)
-  rest : Nat               -- everything else of the field (opaque)
+  opts : Opts              -- FieldOptions, every option present (6 = jstype, typed `.num`)
+  rest : Nat               -- everything else of the field (opaque: hash without options)
   deriving DecidableEq, Repr
+
+/-- `FieldOptions.jstype` (none = unset). -/
+def Field.jstype (fd : Field) : Option Nat :=
+  match getOpt jstypeTag fd.opts with
+  | some (.num n) => some n
+  | _ => none
 
 structure Loc where
   path : List Nat
@@ -101,12 +148,27 @@ structure File where
   path : Str
   pkg : Str
   module : Option Str      -- none = `FullName() == nil`
-  strOpts : StrOpt → Option Str
-  boolOpts : BoolOpt → Option Bool
-  optimizeFor : Option Nat
+  opts : Opts              -- FileOptions, every option present
   fields : List Field
   locs : List Loc
-  rest : Nat               -- every other part of the FileDescriptorProto (opaque)
+  payload : Nat            -- every other part of the FileDescriptorProto (opaque hash)
+  deriving DecidableEq, Repr
+
+/-- `options.XxxString != nil` / `GetXxx()` for the governed string options. -/
+def File.strOpts (f : File) (o : StrOpt) : Option Str :=
+  match getOpt o.tag f.opts with
+  | some (.str s) => some s
+  | _ => none
+
+def File.boolOpts (f : File) (o : BoolOpt) : Option Bool :=
+  match getOpt o.tag f.opts with
+  | some (.bool b) => some b
+  | _ => none
+
+def File.optimizeFor (f : File) : Option Nat :=
+  match getOpt optimizeForTag f.opts with
+  | some (.num n) => some n
+  | _ => none
 
 /-! ## text helpers (ASCII) -/
 
@@ -380,16 +442,6 @@ def StrOpt.valueFunc (f : File) (o : SOO) : StrOpt → Str
   | .phpMetadataNamespace => getPhpMetadataNamespaceValue f o.suffix
   | .rubyPackage => getRubyPackageValue f o.suffix
 
-/-- FileOptions field numbers (second element of the SourceCodeInfo path `[8, n]`). -/
-def StrOpt.tag : StrOpt → Nat
-  | .javaPackage => 1 | .javaOuterClassname => 8 | .goPackage => 11 | .objcClassPrefix => 36
-  | .csharpNamespace => 37 | .phpNamespace => 41 | .phpMetadataNamespace => 44 | .rubyPackage => 45
-
-def BoolOpt.tag : BoolOpt → Nat
-  | .ccEnableArenas => 31 | .javaMultipleFiles => 10 | .javaStringCheckUtf8 => 27
-
-def optimizeForTag : Nat := 9
-
 def BoolOpt.fileOpt : BoolOpt → FileOption
   | .ccEnableArenas => .ccEnableArenas | .javaMultipleFiles => .javaMultipleFiles
   | .javaStringCheckUtf8 => .javaStringCheckUtf8
@@ -483,32 +535,64 @@ def jsChange (preserve : Bool) (cfg : Config) (f : File) (fd : Field) : Option N
 
 /-! ## applying the modifiers to one file (before the sweep) -/
 
+/-- the walk callback's write: `fieldDescriptor.Options.Jstype = jsType`. -/
 def applyField (preserve : Bool) (cfg : Config) (f : File) (fd : Field) : Field :=
   match jsChange preserve cfg f fd with
-  | some v => { fd with jstype := some v }
+  | some v => { fd with opts := setOpt jstypeTag (.num v) fd.opts }
   | none => fd
 
-/-- all thirteen modify functions on one non-WKT file; they are independent of each other
-    (each reads only its own option, the path, the package and the config). -/
-def applyOptions (preserve : Bool) (cfg : Config) (f : File) : File :=
-  { f with
-    strOpts := fun o => match strChange preserve cfg f o with
-      | some v => some v | none => f.strOpts o
-    boolOpts := fun o => match boolChange preserve cfg f o with
-      | some v => some v | none => f.boolOpts o
-    optimizeFor := match optimizeChange preserve cfg f with
-      | some v => some v | none => f.optimizeFor
-    fields := f.fields.map (applyField preserve cfg f) }
-
-/-- the paths handed to `sweeper.Mark` for one file. -/
-def marks (preserve : Bool) (cfg : Config) (f : File) : List (List Nat) :=
-  (StrOpt.all.filterMap fun o => (strChange preserve cfg f o).map fun _ => [8, o.tag]) ++
-  (BoolOpt.all.filterMap fun o => (boolChange preserve cfg f o).map fun _ => [8, o.tag]) ++
-  ((optimizeChange preserve cfg f).map fun _ => [8, optimizeForTag]).toList ++
-  (f.fields.filterMap fun fd =>
+/-- the paths `modifyJsType` hands to `sweeper.Mark`. -/
+def jsMarks (preserve : Bool) (cfg : Config) (f : File) : List (List Nat) :=
+  f.fields.filterMap fun fd =>
     match jsChange preserve cfg f fd with
-    | some _ => if fd.path = [] then none else some (fd.path ++ [8, 6])
-    | none => none)
+    | some _ => if fd.path = [] then none else some (fd.path ++ [8, jstypeTag])
+    | none => none
+
+/-- the twelve file-option modifiers. -/
+inductive Gov where
+  | str (o : StrOpt)
+  | bool (o : BoolOpt)
+  | optimize
+  deriving DecidableEq, Repr
+
+/-- in the order of the `modifyFuncs` slice of `Modify` (`modifyJsType` comes last). -/
+def Gov.all : List Gov :=
+  [.bool .ccEnableArenas, .str .csharpNamespace, .str .goPackage, .bool .javaMultipleFiles,
+   .str .javaOuterClassname, .str .javaPackage, .bool .javaStringCheckUtf8, .str .objcClassPrefix,
+   .optimize, .str .phpMetadataNamespace, .str .phpNamespace, .str .rubyPackage]
+
+def Gov.tag : Gov → Nat
+  | .str o => o.tag
+  | .bool o => o.tag
+  | .optimize => optimizeForTag
+
+/-- the `bufconfig.FileOption` a disable rule names to exempt this option. -/
+def Gov.fileOpt : Gov → FileOption
+  | .str o => o.valueOpt
+  | .bool o => o.fileOpt
+  | .optimize => .optimizeFor
+
+/-- what one modifier decides on the CURRENT state of the file: `some v` = it calls
+    `setOptionFunc(options, v)` and `sweeper.Mark`, `none` = it returns before. -/
+def govChange (preserve : Bool) (cfg : Config) (f : File) : Gov → Option OVal
+  | .str o => (strChange preserve cfg f o).map .str
+  | .bool o => (boolChange preserve cfg f o).map .bool
+  | .optimize => (optimizeChange preserve cfg f).map .num
+
+/-- one modifier applied to the file as the previous modifiers left it; the second component
+    is the sweeper's mark set for this file. -/
+def stepGov (preserve : Bool) (cfg : Config) (st : File × List (List Nat)) (g : Gov) :
+    File × List (List Nat) :=
+  match govChange preserve cfg st.1 g with
+  | some v => ({ st.1 with opts := setOpt g.tag v st.1.opts }, st.2 ++ [[8, g.tag]])
+  | none => st
+
+/-- all thirteen modify functions on one non-WKT file, one after the other as in
+    `modifyImage`: the modified file and the paths handed to `sweeper.Mark` for it. -/
+def modifyFile (preserve : Bool) (cfg : Config) (f : File) : File × List (List Nat) :=
+  let st := Gov.all.foldl (stepGov preserve cfg) (f, [])
+  ({ st.1 with fields := st.1.fields.map (applyField preserve cfg st.1) },
+   st.2 ++ jsMarks preserve cfg st.1)
 
 /-! ## internal/location_path_dfa.go -/
 
@@ -633,10 +717,10 @@ def sweepLocs (fixed : Bool) (mk : List (List Nat)) (locs : List Loc) : Option (
 
 /-- the modifiers on one file (WKT files are skipped). -/
 def modifyOptions (preserve : Bool) (cfg : Config) (f : File) : File :=
-  if isWKT f.path then f else applyOptions preserve cfg f
+  if isWKT f.path then f else (modifyFile preserve cfg f).1
 
 def fileMarks (preserve : Bool) (cfg : Config) (f : File) : List (List Nat) :=
-  if isWKT f.path then [] else marks preserve cfg f
+  if isWKT f.path then [] else (modifyFile preserve cfg f).2
 
 structure Result where
   files : List File
